@@ -210,18 +210,22 @@ class Ctx:
                 res.forbidden.append("%s: %s" % (os.path.relpath(f, COQ), m.group(0)))
         if re.search(r"^\s*(Variable|Hypothesis|Context)\b", text, re.M) and "Section" not in text:
             res.forbidden.append(props_file + ": Variable/Hypothesis outside a Section")
-        targets = [props_file[:-2] + ".vo"] + list(extra_targets)
-        ok, log = self.coq_make(targets)
+        # build everything the properties file depends on with make, then compile the properties file itself
+        # exactly once with coqc (writing its .vo in place) so that the Print Assumptions output is captured
+        deps = []
+        for f in coq_closure(src):
+            if f is not None and os.path.abspath(f) != os.path.abspath(src):
+                deps.append(os.path.relpath(f, COQ)[:-2] + ".vo")
+        targets = sorted(set(deps)) + list(extra_targets)
+        ok, log = self.coq_make(targets) if targets else (True, "")
         res.log = log
-        # re-run coqc on the properties file itself to capture Print Assumptions output
         out = ""
         if ok:
             lock = self._lock()
             try:
                 args = ["coqc", "-Q", ".", "TK"]
-                p = subprocess.run(args + ["-w", "-all", "-o", os.path.join(self.build, props_file[:-2] + ".vo"),
-                                           props_file], cwd=COQ, capture_output=True, text=True,
-                                   timeout=900)
+                p = subprocess.run(args + ["-w", "-all", props_file], cwd=COQ, capture_output=True, text=True,
+                                   timeout=1500)
                 out = p.stdout
                 ok = p.returncode == 0
                 if not ok:
